@@ -6,6 +6,11 @@ HERE = os.path.dirname(os.path.dirname(os.path.abspath(__file__)))
 ALL = ["C%02d" % i for i in range(1, 21)]
 
 CHECKS = {
+ "C06": dict(
+    category="model_checking", design_ref="DESIGN.md 5/C06",
+    text="TLA+ specification of the text archive file format (spec/TextFormat.tla over BinFormat.tla): value -> archive content -> canonical image, and a reference reader. TLC checks round trip, 4-byte alignment and key-as-label on every enumerated value in all 4 format x endianness configurations; mila must produce exactly the specification image for each value and parse it back; random archives over all of Unicode / lossless Shift-JIS recorded from mila are read back by TLC's reference reader.",
+    note="<= 2/3 entries in the enumeration, curated titles/keys/messages (every length modulo 4, BOM-like and astral characters); random archives up to 200 entries. Byte-exact image comparison only where the big-endian label order is determined. Codec conversions in the harness are trusted.",
+    technique="TLA+ format spec + TLC exhaustive law check; spec->impl image/round-trip replay; impl->spec reference read by TLC"),
  "C03": dict(
     category="model_checking", design_ref="DESIGN.md 5/C03",
     text="TLA+ state machine of the in-memory archive (spec/BinArchive.tla): every operation is a function to the set of allowed outcomes. TLC checks conservation, inverse, rejection and well-annotatedness laws on all small archives x all boundary events; every (state, event) pair is replayed on a real BinArchive and the full observable state (incl. pending c-strings via the cfg-gated hook) compared; random histories recorded from mila are validated step by step by TLC.",
